@@ -66,6 +66,19 @@ def classify_rounding(mod, expr, quotient):
     return "unknown", ast.unparse(expr)
 
 
+def _is_offsets_element(e):
+    """OFFSETS[i] or a loop variable that stands for an element of a sequence (zip / enumerate partner)."""
+    while isinstance(e, ast.Call) and isinstance(e.func, ast.Name) and e.func.id in ("float", "int") and len(e.args) == 1:
+        e = e.args[0]
+    if isinstance(e, ast.Subscript) and isinstance(e.value, ast.Name) and not isinstance(e.slice, ast.Slice):
+        return True
+    if isinstance(e, ast.Name):
+        from ..loops import binding as _lb
+        b = _lb(e)
+        return b is not None and b.kind == "elem" and b.path == ()
+    return False
+
+
 def num_half():
     from fractions import Fraction
     return Fraction(1, 2)
@@ -110,9 +123,10 @@ def run(ctx, chk, tier="quick"):
         offx = flow.expand(offval, keep=set())
         # offsets[i] - M
         origin_ok = False
+        origin_known = False
         refidx_node = None
         mean_desc = ast.unparse(offx)[:160]
-        if isinstance(offval, ast.BinOp) and isinstance(offval.op, ast.Sub):
+        if isinstance(offval, ast.BinOp) and isinstance(offval.op, (ast.Sub, ast.Add)):
             left, right = offval.left, offval.right
             mexpr = flow.def_value(right) if isinstance(right, ast.Name) else right
             mean_call, comp = _mean_of_comp(mod, mexpr)
@@ -129,19 +143,33 @@ def run(ctx, chk, tier="quick"):
                             ep = py_poly(comp.elt)
                             # left = offsets[i]; the same offsets array
                             off_arr = left.value.id if isinstance(left, ast.Subscript) and isinstance(left.value, ast.Name) else None
+                            if off_arr is None and isinstance(left, ast.Name):
+                                # `for sid, offset in zip(ids, offsets)`: the loop variable stands for offsets[position]
+                                from ..loops import binding as _lb
+                                lb_ = _lb(left)
+                                if lb_ is not None and lb_.kind == "elem" and lb_.path == () and isinstance(lb_.container, ast.Name):
+                                    off_arr = lb_.container.id
                             atoms = ep.atoms()
                             has_cross = ep.coeff_of_atom(crossing) == Poly.const(1)
                             other = ep - Poly.atom(crossing)
                             st = other.single_term()
                             ok_off = st is not None and st[1] == 1 and len(st[0]) == 1 and off_arr is not None \
                                 and st[0][0][0].startswith("(%s)[" % off_arr) and ".index" in st[0][0][0] and sid in st[0][0][0]
-                            origin_ok = has_cross and ok_off
+                            origin_ok = has_cross and ok_off and isinstance(offval.op, ast.Sub)
+                            origin_known = off_arr is not None
                             mean_desc = "offset - mean(%s for (%s, %s) in mapping[reference index])" % (ep.key(), sid, crossing)
                         except NotAlgebraic:
                             pass
-        chk.ob("C09.O4", origin_ok, where_of(f, main_ins.call), "stored %s = %s" % (offcol, mean_desc),
-               "offset_i - mean over the intervals crossing the reference level of (offset_j + crossing_j)",
-               key="%s|origin" % fq, why="only then is the master curve zero at the reference level")
+        if not origin_known and _is_offsets_element(offval):
+            chk.ob("C09.O4", False, where_of(f, main_ins.call), "stored %s = %s: the fitted offset itself, nothing subtracted" % (offcol, ast.unparse(offval)),
+                   "offset_i - mean over the intervals crossing the reference level of (offset_j + crossing_j)",
+                   key="%s|origin" % fq, why="only then is the master curve zero at the reference level")
+        elif not origin_known:
+            chk.indeterminate("C09.O4", where_of(f, main_ins.call), "stored %s = %s: not of the form offsets[i] - mean(... for (id, crossing) in mapping[reference])" % (offcol, mean_desc))
+        else:
+            chk.ob("C09.O4", origin_ok, where_of(f, main_ins.call), "stored %s = %s" % (offcol, mean_desc),
+                   "offset_i - mean over the intervals crossing the reference level of (offset_j + crossing_j)",
+                   key="%s|origin" % fq, why="only then is the master curve zero at the reference level")
         desc["origin"] = origin_ok
         if refidx_node is None:
             chk.indeterminate("C09.O1", where_of(f, main_ins.call), "reference index not identifiable from the origin computation")
